@@ -21,6 +21,22 @@ Theorem C16_karv_distortion : forall (I J : list nat) (v vt : nat -> nat -> Q) (
 Proof. exact karv_distortion. Qed.
 Print Assumptions C16_karv_distortion.
 
+(* the same bound when y maximises the simulated welfare only up to a factor (1 + delta): what a winner selected by
+   floating-point column sums satisfies. The per-case checker uses delta = 1e-12 (a thorough run found a profile on
+   which three simulated values 1/3 sum to 1 - 2^-54 exactly but to 1.0 in binary64, so the reported co-winner is not
+   an exact maximiser: the exact hypothesis was demanding more than the implementation can deliver and the property needs). *)
+Theorem C16_karv_distortion_with_rounding_slack : forall (I J : list nat) (v vt : nat -> nat -> Q) (fav : nat -> nat) (tk : nat -> Q) (rho delta : Q),
+  let m := inject_Z (Z.of_nat (length J)) in
+  0 <= rho -> 0 <= delta -> 0 < m ->
+  (forall i j, In i I -> In j J -> 0 <= vt i j /\ vt i j <= v i j) ->
+  (forall i j, In i I -> In j J -> v i j <= rho * vt i j + tk i) ->
+  (forall i, In i I -> m * tk i <= rho * vt i (fav i)) ->
+  (forall i, In i I -> In (fav i) J) ->
+  forall x y, In x J -> In y J -> (forall j, In j J -> sumQ (fun i => vt i j) I <= (1 + delta) * sumQ (fun i => vt i y) I) ->
+  sumQ (fun i => v i x) I <= 2 * rho * (1 + delta) * sumQ (fun i => v i y) I.
+Proof. exact karv_distortion_slack. Qed.
+Print Assumptions C16_karv_distortion_with_rounding_slack.
+
 (* lambda-TSF: Y maximises the simulated welfare over the admissible assignments Asg (what C04's certificate
    establishes per case), every agent's favourite item is part of some admissible assignment. *)
 Theorem C16_tsf_distortion : forall (I : list nat) (v vt : nat -> nat -> Q) (fav : nat -> nat) (tk : nat -> Q) (rho eps : Q)
